@@ -53,7 +53,7 @@ CLAIMED = {
  "C04": dict(
   technique="bounded-exhaustive enumeration of VERS comparator shapes (every spec-valid sequence of 1..n comparators) x increasing version pools per scheme x every probe position, on the real vers.Contains against the spec's interval semantics computed with the scheme's own Compare",
   text="Every spec-valid comparator shape up to the tier's length, for all 11 schemes and 2-3 version pools each, is evaluated on probes at, between, below and above every bound; the expected value is the reference union-of-intervals semantics over the scheme's Compare.",
-  note="n <= 4 (quick) / 6 (thorough) constraints (the property names 8); bound versions come from fixed pools that are validated as strictly increasing on every run; pypi pre-release default exclusion is part of the oracle.",
+  note="n <= 4 (quick) / 8 (thorough) constraints; bound versions come from fixed pools that are validated as strictly increasing on every run; pypi pre-release default exclusion is part of the oracle.",
   ref="DESIGN.md 4 (C04), Appendix A.8"),
  "C16": dict(
   technique="bounded-exhaustive metamorphic enumeration: every spec-valid VERS shape up to n constraints x all permutations x whitespace-insertion patterns x duplication patterns x empty-constraint patterns x every probe, on the real vers.Contains, compared with the canonical spelling",
